@@ -253,7 +253,7 @@ def minimise(mod: Any, prop: str, v: Dict[str, Any], opts: Dict[str, Any], budge
     eff = still(v["choices"])
     if eff is None:
         return {"reproduced": False}
-    small = shrink(eff, still, budget=budget)
+    small = shrink(eff, still, budget=budget, wall_s=20.0 if opts.get("tier") == "quick" else 90.0)
     r = run_one(mod, prop, None, small, {**o, "want_trace": True})
     return {
         "reproduced": r["status"] == "violation" and r["signature"] == v["signature"],
